@@ -48,13 +48,23 @@ GROUPS = [
          unwindset="hash_table_iter_next.0:110", flags=["--no-undefined-shift-check", "--no-signed-overflow-check"], replay=RB("r_add_silence_alt", defines=["NST=2", "ALL_PRESENT", "MODE=1", "QPAIR=3"]),
          bounded="2 states, all 4 word arcs present with labels (from state) mod 2, symbolic probabilities, alt transformation, witness state pair 3; real hash table / glist code"),
 ]
+NATIVE = [
+    dict(name="fsg_transform_enum", source="native/fsg_transform_enum.c", repo_sources="ALL_EXCEPT:", cflags=["-w", "-fsanitize=address"],
+         args={"quick": [], "thorough": ["thorough"]}, exhaustive=True,
+         bound="EVERY null-arc graph with 3 states (<= 6 arcs) and 4 states (<= 4 arcs; thorough <= 5), 3 probabilities per arc, and 4 states with <= 6 arcs and 2 probabilities (thorough 3), through the real fsg_model_null_trans_closure against Floyd-Warshall; "
+               "EVERY grammar with 2 states (<= 4 arcs; thorough 5) and 3 states (<= 3 arcs; thorough 4) over {null, a, b} x 2 probabilities through the real closure, add_silence, add_alt and write/read, "
+               "best score of every word sequence of length <= 4 compared before/after"),
+]
 ASSUMPTIONS = [
     "the per-state null-transition hash table is replaced by its map view at one witness key (contracts/fsg_model.ghost.h): hash_table_lookup_bkey/enter_bkey/new and the link allocator are ASSUMED contracts (the map view itself is what C20 checks)",
     "log-probabilities handed to fsg_model_tag_trans_add are <= 0 (a caller obligation; E_FATAL otherwise)",
 ]
 HAND_LEMMAS = ["closure soundness: every arc the closure adds is null_trans_add(a, c, p1 + p2) for existing arcs a->b, b->c; with the merge contract (never removes, never lowers, keeps the maximum) the closed graph has the same language and best probabilities (standard fixpoint argument, NOT machine checked here)"]
-NOT_COVERED = ["fsg_model_null_trans_closure itself: a bounded run of the real closure over the real hash table (3 and 4 states) did not finish within 10 minutes and is kept in tier 'probe' (seeded change C13_A is NOT detected)", "fsg_model_write / fsg_model_read_s3file round trip (seeded change C13_B)"]
+NOT_COVERED = ["fsg_model_null_trans_closure, fsg_model_add_silence, fsg_model_add_alt, fsg_model_write and fsg_model_read_s3file are NOT under contract as whole functions: a bounded CBMC run of the real closure over the real hash table "
+               "(3 and 4 states) did not finish within 30 minutes (tier 'probe'); they are decided by the exhaustive native enumeration fsg_transform_enum over small grammars (bounded stand-in, never counted as proved)",
+               "grammars larger than the enumerated family (more than 4 states / 6 null arcs / 4 labelled arcs), more than two real words, tag transitions, language weights other than 1.0",
+               "fsg_model_write_fsm / symtab writers"]
 CLAIM = dict(
-    text="The null-arc merge rule is proved: fsg_model_tag_trans_add / fsg_model_null_trans_add leave the null arc (from,to) with the maximum of the old and new probability, create it exactly once when absent, reject self-loops, report 1/0/-1 accordingly, and never remove, lower or touch any other arc (witness form over the abstract arc map), for all states and probabilities. Silence self-loops and alternate-word arcs are checked on the real functions over the real hash table for a 2-state grammar with all word arcs present and symbolic probabilities (bounded, concrete structure): real-word arcs untouched, exactly one silence loop per state, adding it twice changes nothing, every base-word arc gets exactly one twin with the same endpoints and probability. The closure itself is NOT decided.",
-    note="merge rule only; closure / silence / alt / file round trip not covered; hash table by assumed map view; trusted: CBMC 6.11",
-    technique="CBMC function contracts (goto-instrument --dfcc), callees replaced by map-view contracts, ghost witness key")
+    text="The null-arc merge rule is proved: fsg_model_tag_trans_add / fsg_model_null_trans_add leave the null arc (from,to) with the maximum of the old and new probability, create it exactly once when absent, reject self-loops, report 1/0/-1 accordingly, and never remove, lower or touch any other arc (witness form over the abstract arc map), for all states and probabilities. Silence self-loops and alternate-word arcs are checked on the real functions over the real hash table for a 2-state grammar with all word arcs present and symbolic probabilities (bounded, concrete structure): real-word arcs untouched, exactly one silence loop per state, adding it twice changes nothing, every base-word arc gets exactly one twin with the same endpoints and probability. The closure itself is NOT decided. The whole-function claims of the property (closure = best-path closure and idempotent, one null step suffices after closure, silence and alternates leave the real-word language and best probabilities unchanged, silence twice changes nothing, write/read round trip keeps states, labelled arcs and probabilities to 1e-6) are decided by an exhaustive native enumeration of every grammar in a small family (about 170 000 grammars per quick run) against an independent max-plus evaluator -- a bounded stand-in, not a proof.",
+    note="contracts: merge rule only (hash table by assumed map view); closure / silence / alt / file round trip by exhaustive native enumeration over small grammars (bounded, not proof) and bounded CBMC runs on 2-state grammars; trusted: CBMC 6.11, the max-plus reference evaluator in native/fsg_transform_enum.c",
+    technique="CBMC function contracts (goto-instrument --dfcc), callees replaced by map-view contracts, ghost witness key; bounded CBMC runs on 2-state grammars; exhaustive native enumeration of small grammars against a max-plus reference as bounded stand-in for the whole-function claims")
